@@ -98,7 +98,46 @@ func verifNestedExpansion() (int, []string) {
 	return n, fails
 }
 
+// verifUnknownMarks: a dynamic block whose for_each is unknown and marked decodes, under every
+// block specification kind, to a value that carries the mark (as it does for known content).
+func verifUnknownMarks() (int, []string) {
+	src := "dynamic \"b\" {\n for_each = secret\n content {\n  v = b.value\n }\n}\n"
+	f, d := hclsyntax.ParseConfig([]byte(src), "t.hcl", hcl.InitialPos)
+	if d.HasErrors() {
+		return 0, nil
+	}
+	nested := &hcldec.AttrSpec{Name: "v", Type: cty.String}
+	specs := map[string]hcldec.Spec{
+		"BlockListSpec":   &hcldec.BlockListSpec{TypeName: "b", Nested: nested},
+		"BlockSetSpec":    &hcldec.BlockSetSpec{TypeName: "b", Nested: nested},
+		"BlockTupleSpec":  &hcldec.BlockTupleSpec{TypeName: "b", Nested: nested},
+		"BlockSpec":       &hcldec.BlockSpec{TypeName: "b", Nested: nested},
+		"BlockListSpec/o": &hcldec.BlockListSpec{TypeName: "b", Nested: hcldec.ObjectSpec{"v": nested}},
+	}
+	var fails []string
+	n := 0
+	for name, spec := range specs {
+		for _, sv := range []cty.Value{cty.UnknownVal(cty.List(cty.String)).Mark("secret"), cty.ListVal([]cty.Value{cty.StringVal("k")}).Mark("secret")} {
+			n++
+			ctx := &hcl.EvalContext{Variables: map[string]cty.Value{"secret": sv}}
+			v, dd := hcldec.Decode(Expand(f.Body, ctx), spec, ctx)
+			if dd.HasErrors() {
+				continue
+			}
+			if _, marks := v.UnmarkDeep(); len(marks) == 0 {
+				fails = append(fails, fmt.Sprintf("input=%q for_each = %#v decodes to %#v: the mark is lost", "unknown-marked/"+name, sv, v))
+			}
+		}
+	}
+	return n, fails
+}
+
 func TestVerifReplayDynVariables(t *testing.T) {
+	un, ufails := verifUnknownMarks()
+	for _, m := range ufails {
+		t.Errorf("REPLAY-FAIL func=hcldec.unknownBody %s", m)
+	}
+	_ = un
 	nn, nfails := verifNestedExpansion()
 	for _, m := range nfails {
 		t.Errorf("REPLAY-FAIL func=dynblock.(exprWrap).Value %s", m)
